@@ -27,6 +27,9 @@ pub enum Step {
     CommitSkipIndexes,
     FinalizeIndexes,
     Ticket,
+    /// A lets readers in (shared lock, only granted when nothing is pending); its next mutation
+    /// takes the exclusive lock back
+    DowngradeToShared,
     /// the intruder tries to take the writer lock
     Probe,
     /// the intruder opens read-only (allowed or refused, but must not end A's exclusivity)
@@ -103,6 +106,10 @@ pub fn check(c: &Case) -> CheckResult {
             Step::FinalizeIndexes => {
                 let _ = m.finalize_indexes();
                 history.push("finalize_indexes");
+            }
+            Step::DowngradeToShared => {
+                let _ = m.downgrade_to_shared();
+                history.push("downgrade_to_shared");
             }
             Step::Ticket => {
                 seq += 1;
@@ -187,13 +194,14 @@ fn step(real: bool) -> impl Strategy<Value = Step> {
         1 => Just(Step::CommitSkipIndexes),
         1 => Just(Step::FinalizeIndexes),
         1 => Just(Step::Ticket),
+        1 => Just(Step::DowngradeToShared),
         if real { 2 } else { 6 } => probe,
         1 => Just(Step::ReaderAttempt),
     ]
 }
 
 pub fn build(ctx: &Ctx) -> Vec<Box<dyn Arm>> {
-    ctx.rule("generated interleavings of writer A's steps (put, embedded put, delete, commit, vacuum, commit_skip_indexes, finalize_indexes, apply_ticket, close+reopen, close+doctor+reopen) with an intruder's steps: a non-blocking exclusive flock probe on a fresh descriptor of the path (what a second Memvid::open does first), read-only open attempts, and (second arm) real second Memvid::open calls; the harness executes the interleaving synchronously, so the schedule is exactly the generated one; invariant after every intruder step: the exclusive lock is NOT obtainable while A's writable handle is alive; after A is dropped it is obtainable again; non-trivial = a probe happens after a commit (which replaces the file by rename)");
+    ctx.rule("generated interleavings of writer A's steps (put, embedded put, delete, commit, vacuum, commit_skip_indexes, finalize_indexes, apply_ticket, downgrade_to_shared, close+reopen, close+doctor+reopen) with an intruder's steps: a non-blocking exclusive flock probe on a fresh descriptor of the path (what a second Memvid::open does first), read-only open attempts, and (second arm) real second Memvid::open calls; the harness executes the interleaving synchronously, so the schedule is exactly the generated one; invariant after every intruder step: the exclusive lock is NOT obtainable while A's writable handle is alive; after A is dropped it is obtainable again; non-trivial = a probe happens after a commit (which replaces the file by rename)");
     ctx.assume("the TLA+ exploration mentioned in the property's quantifier is not part of this technique family; the generated interleavings cover the same step alphabet by sampling; OS-level races inside a single open call are not controlled");
     let t = ctx.tier;
     vec![
